@@ -119,7 +119,12 @@ func (e *Explorer) one(prefix []int) *Exec {
 	return x
 }
 
-func (e *Explorer) rec(prefix []int, depth int) {
+func (e *Explorer) sharded() bool { return e.NShards > 1 }
+
+// rec explores the subtree rooted at prefix. Work is split between workers
+// at depth 2: every worker executes the (few) depth-1 nodes to learn their
+// children, the node itself is counted and checked by one owner only.
+func (e *Explorer) rec(prefix []int, depth, acc int, counted bool) {
 	if e.capped {
 		return
 	}
@@ -127,11 +132,19 @@ func (e *Explorer) rec(prefix []int, depth int) {
 		e.capped = true
 		return
 	}
-	x := e.one(prefix)
-	e.expand(x, len(prefix), depth)
+	var x *Exec
+	if counted {
+		x = e.one(prefix)
+	} else {
+		x = RunOnce(e.Sc, prefix, false, nil)
+		if e.Sc.Teardown != nil {
+			e.Sc.Teardown(x)
+		}
+	}
+	e.expand(x, len(prefix), depth, acc)
 }
 
-func (e *Explorer) expand(x *Exec, from int, depth int) {
+func (e *Explorer) expand(x *Exec, from int, depth, acc int) {
 	base := cost{}
 	for i := 0; i < from; i++ {
 		base = base.add(x.decisions[i].costs[x.Choices[i]])
@@ -144,13 +157,21 @@ func (e *Explorer) expand(x *Exec, from int, depth int) {
 				continue
 			}
 			idx++
-			if depth == 0 && e.NShards > 1 && idx%e.NShards != e.Shard {
-				continue
+			counted := true
+			if e.sharded() {
+				switch depth {
+				case 0:
+					counted = idx%e.NShards == e.Shard
+				case 1:
+					if (acc*7+idx)%e.NShards != e.Shard {
+						continue
+					}
+				}
 			}
 			p := make([]int, i+1)
 			copy(p, x.Choices[:i])
 			p[i] = alt
-			e.rec(p, depth+1)
+			e.rec(p, depth+1, idx, counted)
 		}
 		// choices after the prefix are defaults (cost zero)
 	}
@@ -195,7 +216,7 @@ func (e *Explorer) Explore() Stats {
 	} else if e.Sc.Teardown != nil {
 		e.Sc.Teardown(root)
 	}
-	e.expand(root, 0, 0)
+	e.expand(root, 0, 0, 0)
 	e.stats.States = len(e.states)
 	e.stats.Exhaustive = !e.capped
 	return e.stats
